@@ -4,7 +4,7 @@ import cvbuild, cvlib
 from cvlib import fbits, tok_val, esc
 from cvscen import inj_cv, cfg, pos, tf, num
 
-RULE = ("modules with 4-6 variables (single and two-component variables, variables with timeStepFactor 2 and 3, distance and angle "
+RULE = ("modules with 5-7 variables (single, two- and three-component variables with components switched off and on in mid-run, variables with timeStepFactor 2 and 3, distance and angle "
         "components) and 3-5 biases (harmonic, harmonicWalls, ABF, metadynamics, histogram, some with timeStepFactor), 10-16 steps, "
         "a variable deleted and another defined in mid-run; the serial evaluation is compared, step by step and bit for bit, with the "
         "component-parallel evaluation under every generated schedule: 1-4 threads, random permutation of the work items, random "
@@ -24,6 +24,9 @@ def variables(rng):
                    " distanceZ {\n  componentCoeff 0.5\n  main { atomNumbers 3 }\n  ref { dummyAtom (0.0, 0.0, 0.0) }\n  axis (0.0, 0.0, 1.0)\n  oneSiteTotalForce on\n }\n}\n"))
     v.append(("c", inj_cv("c", 3, -3.0, 3.0, 0.5, extra="  timeStepFactor 2\n")))
     v.append(("d", inj_cv("d", 4, -3.0, 3.0, 0.5, extra="  timeStepFactor 3\n")))
+    v.append(("g", "colvar {\n name g\n width 0.5\n" + "".join(
+        " distanceZ {\n  name g%d\n  componentCoeff %s\n  main { atomNumbers %d }\n  ref { dummyAtom (0.0, 0.0, 0.0) }\n  axis (0.0, 0.0, 1.0)\n }\n" % (i, c, a)
+        for i, (c, a) in enumerate([("1.0", 1), ("0.5", 3), ("0.25", 5)])) + "}\n"))          # three components: individual ones are switched off in mid-run
     v.append(("r", "colvar {\n name r\n width 0.2\n lowerBoundary 0.0\n upperBoundary 8.0\n distance {\n  group1 { atomNumbers 6 7 }\n  group2 { atomNumbers 8 }\n }\n}\n"))
     v.append(("t", "colvar {\n name t\n width 5.0\n angle {\n  group1 { atomNumbers 6 }\n  group2 { atomNumbers 7 }\n  group3 { atomNumbers 8 9 }\n }\n}\n"))
     return v
@@ -34,6 +37,7 @@ def biases(rng):
     b.append(("hab", "harmonic {\n name hab\n colvars a b\n centers 0.3 -0.2\n forceConstant 2.0\n}\n"))
     b.append(("hc", "harmonic {\n name hc\n colvars c\n centers 0.4\n forceConstant 3.0\n timeStepFactor 2\n}\n"))
     b.append(("hd", "harmonic {\n name hd\n colvars d\n centers -0.4\n forceConstant 3.0\n timeStepFactor 3\n}\n"))
+    b.append(("hg", "harmonic {\n name hg\n colvars g\n centers 0.1\n forceConstant 1.0\n}\n"))
     b.append(("wr", "harmonicWalls {\n name wr\n colvars r\n upperWalls 2.5\n forceConstant 4.0\n}\n"))
     b.append(("ht", "harmonic {\n name ht\n colvars t\n centers 80.0\n forceConstant 0.5\n}\n"))
     b.append(("ma", "metadynamics {\n name ma\n colvars a\n hillWeight 0.1\n hillWidth 2.0\n newHillFrequency 2\n}\n"))
@@ -51,7 +55,7 @@ def timeline(mode, rng_seed, sched_seed):
         L += ["m.opt threads %d" % mode[1], "m.opt realthreads %d" % int(mode[2])]
     vs = variables(rng); bs = biases(rng)
     L.append(cfg("".join(t for _, t in vs)))
-    nb = rng.randint(3, len(bs))
+    nb = rng.randint(4, len(bs))
     chosen = bs[:nb]
     L.append(cfg("".join(t for _, t in chosen)))
     P = [[rng.uniform(-1, 1) + 1.5 * (a % 3), rng.uniform(-1, 1) + 1.2 * (a // 3), rng.uniform(-1, 1)] for a in range(NAT)]
@@ -59,6 +63,9 @@ def timeline(mode, rng_seed, sched_seed):
     swap_at = rng.randint(3, N - 3) if rng.rand() < 0.7 else -1
     probes = []
     names = [n for n, _ in vs]; bnames = [n for n, _ in chosen]
+    flag_at = {}
+    for s_ in sorted(set(rng.randint(1, N - 1) for _ in range(2))):
+        flag_at[s_] = rng.choice([[0, 1, 1], [1, 0, 1], [0, 0, 1], [0, 1, 0], [1, 1, 1], [1, 1, 0]])
     for s in range(N + 1):
         for a in range(NAT):
             P[a] = [x + rng.uniform(-0.15, 0.15) for x in P[a]]
@@ -74,6 +81,9 @@ def timeline(mode, rng_seed, sched_seed):
             L.append("m.cv %s ft fa" % n); probes.append(len(L))
         for n in bnames:
             L.append("m.bias %s" % n); probes.append(len(L))
+        if s in flag_at:
+            # components of g switched off / on between two steps (`cv colvar g cvcflags`): the work items of the next steps change
+            L.append("m.scriptq cv colvar g cvcflags " + esc(" ".join(str(x) for x in flag_at[s])))
         if s == swap_at:
             # a variable goes, another one with the same number of components comes (between two steps)
             L.append("m.scriptq cv colvar d delete")
